@@ -258,7 +258,10 @@ class CouplingLevyCopulaSimulationFixedTimes(CouplingLevyCopulaSimulation):
                 fines_states_values[:, k + 1] = slice_fine_values[-1]
                 coarse_states_values[:, k + 1] = slice_coarse_values[-1]
 
-        return fines_states_values, coarse_states_values
+        # sums of the jumps of each interval -> running sums over the product dates
+        return np.cumsum(fines_states_values, axis=1), np.cumsum(
+            coarse_states_values, axis=1
+        )
 
     def simulate_one_path_with_coupling(self):
         # simulate the jump part first
